@@ -241,7 +241,12 @@ def runCase (_hdr : List String) (ops : List String) : List String := Id.run do
       match (parseKind k).bind st.get with
       | some bt =>
         match Spec.tableCheck st.g bt.built with
-        | none => out := out.push "ok valid"
+        | none =>
+          -- a conflict-free table must also pass the check `C11_complete_validated` rests on
+          let kd := (parseKind k).getD .lr1
+          if Spec.chkConflictFree bt.built.table && !Spec.completeOKFor kd st.g bt.built then
+            out := out.push "ok invalid completeness-validator"
+          else out := out.push "ok valid"
         | some why => out := out.push ("ok invalid " ++ why)
       | none => out := out.push "ok no-table"
     | "parse" :: k :: w =>
